@@ -304,10 +304,13 @@ def check_c10(tier):
         else:
             V.drift += 1
             V.violation(e2, "index after scan/editor interleaving differs from the editor's content and from the model's prediction")
+    # ---- coarse-grained confirmation through the REAL binary: didOpen right after initialize (racing the
+    # background scan, which is kept busy by filler files) vs after "Workspace scan complete"
+    nbin = c10_binary(V, tier)
     if reps:
         V.sample({"scenario": reps[0]["sc"], "sched": reps[0]["sched"], "editorWins": reps[0]["editorWins"]})
-    cov = {"states": meta["distinct"], "transitions": meta["transitions"], "traces_validated_against_impl": len(res),
-           "tlc_behaviours": len(reps), "exhaustive": True,
+    cov = {"states": meta["distinct"], "transitions": meta["transitions"], "traces_validated_against_impl": len(res) + nbin,
+           "tlc_behaviours": len(reps), "binary_sessions": nbin, "exhaustive": True,
            "tlc": {"cfg": "Conc_c10.cfg", "wall_s": meta["wall_s"], "cached": meta.get("cached", False)}}
     return V.finish(
         coverage_extra=cov,
@@ -555,3 +558,69 @@ def check_c12(tier):
         assumptions=["handlers of the binary crate are covered through the library entry points they call (code lens / inlay hint "
                      "hold a definitions.iter / usages.get guard across calls: read-under-read templates)",
                      "watchdog = 600 s per harness process"])
+
+
+def c10_binary(V, tier):
+    import shutil
+    import lsp
+    C.build_server()
+    base = os.path.join(C.BUILD, "ws", "c10-%d" % os.getpid())
+    shutil.rmtree(base, ignore_errors=True)
+    disk = "import pytest\n\n\n@pytest.fixture\ndef on_disk():\n    return 1\n\n\ndef test_d(on_disk):\n    pass\n"
+    buf = "import pytest\n\n\n@pytest.fixture\ndef in_buffer():\n    return 1\n\n\ndef test_b(in_buffer):\n    pass\n"
+    buf2 = "import pytest\n\n\n@pytest.fixture\ndef second():\n    return 2\n"
+    jobs = [(i, early, same) for i in range(12 if tier == "quick" else 100) for early in (True, False) for same in (True, False)]
+
+    def session(job):
+        i, early, same = job
+        root = os.path.join(base, "s%d_%d_%d" % (i, early, same))
+        os.makedirs(os.path.join(root, "pkg"), exist_ok=True)
+        for k in range(150):
+            with open(os.path.join(root, "pkg", "test_fill_%d.py" % k), "w") as fh:
+                fh.write("import pytest\n\n\n@pytest.fixture\ndef fill_%d():\n    return 1\n\n\ndef test_f(fill_%d):\n    pass\n" % (k, k))
+        f = os.path.join(root, "test_f.py")
+        with open(f, "w") as fh:
+            fh.write(disk)
+        text = disk if same else buf
+        srv = lsp.Server(timeout=40)
+        try:
+            srv.initialize(root, wait_scan=not early)
+            srv.did_open(f, text)
+            if early:
+                srv.wait_log("Workspace scan complete", also_fail="Workspace scan failed")
+
+            def names():
+                syms = srv.doc_request("textDocument/documentSymbol", f) or []
+                return sorted(s["name"] for s in syms)
+            first = names()
+            srv.did_change(f, buf2, version=2)
+            after = names()
+            return {"first": first, "after": after, "alive": srv.alive()}
+        except (lsp.ServerDied, lsp.Timeout) as e:
+            return {"error": str(e)}
+        finally:
+            srv.close()
+            shutil.rmtree(root, ignore_errors=True)
+
+    for job, r in zip(jobs, lsp.run_parallel(jobs, session, workers=6)):
+        i, early, same = job
+        V.count()
+        V.nontriv(("bin", early, same, i))
+        if r is None or "__exception__" in r:
+            raise C.ToolError("LSP session failed: %r" % (r,))
+        ex = {"didOpen_before_scan_completes": early, "buffer_equals_disk": same, "result": r}
+        if "error" in r:
+            V.violation(ex, "server died while a document was opened during the workspace scan")
+            continue
+        want = ["on_disk"] if same else ["in_buffer"]
+        if r["after"] != ["second"]:
+            V.violation(ex, "one further change notification does not restore the single-analysis state (real binary)")
+        if r["first"] != want:
+            # the scan visited the file after the notification: editor's definitions plus the on-disk ones
+            predicted = early and sorted(r["first"]) == sorted(want + ["on_disk"])
+            if predicted:
+                V.classify(["scan_no_cleanup_same_file"], ex, "after scan and didOpen the document's symbols are not the editor's content exactly once")
+            else:
+                V.violation(ex, "document symbols after scan + didOpen match neither the editor's content nor the known scan-after-notification shape")
+    shutil.rmtree(base, ignore_errors=True)
+    return len(jobs)
